@@ -43,6 +43,7 @@ func init() {
 var emitCases = true
 
 var tornOffsets = []int{0, 1, 31, 32, 33, 65, 1 << 20}
+var tornOffsetsQuick = []int{1, 32, 33, 1 << 20} // 0 bytes = the crash point before the append
 
 func Run(c *hx.Ctx) {
 	c.CoqModule("Corr.C01")
@@ -71,6 +72,14 @@ func Run(c *hx.Ctx) {
 	c.Note("submitBlock steps: " + strings.Join(stepNames, " "))
 	c.Note(fmt.Sprintf("recoverStore loop: for i := %s; %s; %s { GetBlockHash(%s) }", proto.InitGo, proto.CondGo, proto.PostGo, proto.ArgGo))
 
+	// The staged copy of submitBlock (verif hook) is used only when it is submitBlock statement for
+	// statement; otherwise crashed directories are recombined from commit-boundary snapshots.
+	hookOK := true
+	if herr := CompareHook(c.Repo); herr != nil {
+		hookOK = false
+		c.Note("hook copy out of sync: " + herr.Error())
+		c.Fail("translator:hook", "VerifSubmitBlockStaged (verif_hooks_c01.go) is no longer submitBlock statement for statement; crash points are recombined from snapshots instead of copied between the real calls", hookFile, herr.Error(), nil)
+	}
 	type job struct {
 		name string
 		spec chainSpec
@@ -100,7 +109,7 @@ func Run(c *hx.Ctx) {
 	var defs []string
 	tab = &interner{idx: map[[32]byte]int{}}
 	for _, j := range jobs {
-		bc, err := buildChain(c, j.name, j.spec)
+		bc, err := buildChain(c, j.name, j.spec, proto.Submit, hookOK)
 		if err != nil {
 			c.Note(j.name + ": chain not built: " + err.Error())
 			c.Fail("harness:chain", "the uncrashed solo chain could not be built", j.spec, err.Error(), nil)
@@ -109,6 +118,9 @@ func Run(c *hx.Ctx) {
 			continue
 		}
 		defer os.RemoveAll(bc.dir)
+		for h := 1; h <= bc.top() && hookOK; h++ {
+			checkAtomicity(c, bc, proto.Submit, h)
+		}
 		cw := newCoqChain(c, j.name, bc)
 		defs = append(defs, cw.definitions(c))
 		// every hash the uncrashed run shows is interned as well
@@ -131,33 +143,87 @@ func Run(c *hx.Ctx) {
 	}
 }
 
-// genChain draws a chain of 2..5 blocks (the last is only used as "next block") of 0..4 transfers.
+// genChain draws a chain of 3..5 blocks (the last is only used as "next block") of 1..5
+// transactions: ONT/ONG transfers that succeed, fail for lack of balance or exceed the supply, and
+// transactions that DELETE state keys their own re-execution reads: transfers of a holder's whole
+// ONT or ONG balance (the balance key is deleted at zero) and approve followed, in a later block, by
+// a transferFrom of exactly the allowance (the allowance key is deleted).
 func genChain(c *hx.Ctx, i int) chainSpec {
-	spec := chainSpec{Accounts: 2 + c.Intn(3)}
-	nb := 2 + c.Intn(c.N(3, 5))
+	spec := chainSpec{Accounts: 3 + c.Intn(2)}
+	nb := 3 + c.Intn(c.N(2, 3))
 	if i == 0 {
 		nb = 4 // sizes 1..5 of the block tree: appends that store 1, 2, 1, 3 hashes
 	}
+	other := func() int { return 1 + c.Intn(spec.Accounts-1) }
+	holders := map[int]bool{}
+	type allowance struct {
+		tok     string
+		spender int
+		amount  uint64
+	}
+	var allow []allowance
 	for b := 0; b < nb; b++ {
 		var txs []txSpec
-		nt := c.Intn(5)
-		if b == 0 && nt == 0 {
-			nt = 1
-		}
-		for t := 0; t < nt; t++ {
-			tx := txSpec{Token: "ont", From: 0, To: 1 + c.Intn(spec.Accounts-1), Amount: uint64(1 + c.Intn(1000))}
-			switch c.Intn(8) {
-			case 0:
-				tx.Token = "ong" // nobody holds ONG: the transfer fails inside an otherwise valid block
-			case 1:
-				tx.From = 1 + c.Intn(spec.Accounts-1) // may or may not hold enough
-				tx.To = c.Intn(spec.Accounts)
-			case 2:
-				tx.Amount = 2000000000 // more than the supply
+		add := func(t txSpec) {
+			txs = append(txs, t)
+			k := t.Kind
+			if k == "" {
+				k = "transfer"
 			}
-			txs = append(txs, tx)
-			c.Count("tx:" + tx.Token)
+			if t.All {
+				k += "-all"
+			}
+			c.Count("tx:" + t.Token + ":" + k)
 		}
+		if b == 0 {
+			to := other()
+			add(txSpec{Token: "ont", From: 0, To: to, Amount: uint64(1 + c.Intn(1000))})
+			holders[to] = true
+			sp := other()
+			a := allowance{"ont", sp, uint64(1 + c.Intn(500))}
+			add(txSpec{Token: "ont", Kind: "approve", From: 0, To: sp, Amount: a.amount})
+			allow = append(allow, a)
+		}
+		nt := 1 + c.Intn(4)
+		pendingNew := []allowance{}
+		for t := 0; t < nt; t++ {
+			switch c.Intn(10) {
+			case 0, 1: // a holder sends everything it has: its balance key is deleted
+				for h := range holders {
+					add(txSpec{Token: "ont", From: h, To: c.Intn(spec.Accounts), All: true})
+					delete(holders, h)
+					break
+				}
+			case 2: // the genesis holder's whole unbound ONG
+				add(txSpec{Token: "ong", From: 0, To: other(), All: true})
+			case 3, 4: // use an allowance up exactly: the allowance key is deleted
+				if len(allow) > 0 {
+					a := allow[0]
+					allow = allow[1:]
+					to := other()
+					add(txSpec{Token: a.tok, Kind: "transferFrom", Sender: a.spender, From: 0, To: to, Amount: a.amount})
+					if a.tok == "ont" {
+						holders[to] = true
+					}
+				}
+			case 5: // a new allowance, usable from the next block on
+				sp := other()
+				a := allowance{"ont", sp, uint64(1 + c.Intn(500))}
+				add(txSpec{Token: "ont", Kind: "approve", From: 0, To: sp, Amount: a.amount})
+				pendingNew = append(pendingNew, a)
+			case 6: // nobody but account 0 holds ONG: fails inside an otherwise valid block
+				add(txSpec{Token: "ong", From: other(), To: 0, Amount: uint64(1 + c.Intn(1000))})
+			case 7: // may or may not hold enough
+				add(txSpec{Token: "ont", From: other(), To: c.Intn(spec.Accounts), Amount: uint64(1 + c.Intn(1000))})
+			case 8: // more than the supply
+				add(txSpec{Token: "ont", From: 0, To: other(), Amount: 2000000000})
+			default:
+				to := other()
+				add(txSpec{Token: "ont", From: 0, To: to, Amount: uint64(1 + c.Intn(1000))})
+				holders[to] = true
+			}
+		}
+		allow = append(allow, pendingNew...)
 		c.Count(fmt.Sprintf("block:txs=%d", len(txs)))
 		spec.Blocks = append(spec.Blocks, txs)
 	}
@@ -184,7 +250,11 @@ func runSpec(c *hx.Ctx, proto *Protocol, bc *builtChain, cw *coqChain, only *cra
 		runCrash(c, bc, cw, only.Block, p)
 		return
 	}
-	pts, err := crashPoints(proto.Submit, tornOffsets)
+	to := tornOffsets
+	if c.Quick() {
+		to = tornOffsetsQuick
+	}
+	pts, err := crashPoints(proto.Submit, to)
 	if err != nil {
 		c.Fail("protocol:unsupported-step-order", "submitBlock's step order cannot be reproduced by mixing snapshots of the stores",
 			scenario{Chain: spec}, err.Error(), "NewBatch, Save*, then one CommitTo per store")
